@@ -622,6 +622,18 @@ func mapLiterals(f *ssa.Function) [][][2]constant.Value {
 								out = append(out, e)
 							}
 						}
+						// built by an initialiser function from another constant table
+						if call, ok := st.Val.(*ssa.Call); ok {
+							if h := call.Common().StaticCallee(); h != nil && len(h.Blocks) > 0 {
+								for _, r := range returnsOf(h) {
+									if mm, ok := r.Results[0].(*ssa.MakeMap); ok && len(r.Results) == 1 {
+										if e := derivedInverse(mm); len(e) > 0 {
+											out = append(out, e)
+										}
+									}
+								}
+							}
+						}
 					}
 				}
 			}
@@ -683,7 +695,172 @@ func eventNames(m *Module) map[int64]string {
 		}
 	}
 	if len(out) == 0 {
+		// the table as a package-level array indexed by the event
+		for _, b := range f.Blocks {
+			for _, in := range b.Instrs {
+				ia, ok := in.(*ssa.IndexAddr)
+				if !ok {
+					continue
+				}
+				if g, ok := ia.X.(*ssa.Global); ok {
+					for k, v := range globalArrayLiteral(g) {
+						if v.Kind() == constant.String && constant.StringVal(v) != "" {
+							out[k] = constant.StringVal(v)
+						}
+					}
+				}
+			}
+		}
+	}
+	if len(out) == 0 {
 		panic(anchorErr{"event name table of EventMask.PrettyString not found"})
+	}
+	return out
+}
+
+// globalArrayLiteral: the constant entries of a package-level array variable initialised by a composite
+// literal and never assigned again (index -> value).
+func globalArrayLiteral(g *ssa.Global) map[int64]constant.Value {
+	out := map[int64]constant.Value{}
+	if g.Pkg == nil {
+		return out
+	}
+	initF := g.Pkg.Func("init")
+	if initF == nil {
+		return out
+	}
+	for _, mem := range g.Pkg.Members {
+		if fn, ok := mem.(*ssa.Function); ok && fn != initF {
+			for _, bb := range fn.Blocks {
+				for _, i2 := range bb.Instrs {
+					if st, ok := i2.(*ssa.Store); ok {
+						if st.Addr == ssa.Value(g) {
+							return map[int64]constant.Value{}
+						}
+						if ia, ok := st.Addr.(*ssa.IndexAddr); ok && ia.X == ssa.Value(g) {
+							return map[int64]constant.Value{}
+						}
+					}
+				}
+			}
+		}
+	}
+	for _, bb := range initF.Blocks {
+		for _, i2 := range bb.Instrs {
+			// the literal's elements stored straight into the variable …
+			if ia, ok := i2.(*ssa.IndexAddr); ok && ia.X == ssa.Value(g) {
+				if k, isC := constInt(ia.Index); isC {
+					for _, rr := range *ia.Referrers() {
+						if s2, ok := rr.(*ssa.Store); ok && s2.Addr == ssa.Value(ia) {
+							if cv, ok := s2.Val.(*ssa.Const); ok && cv.Value != nil {
+								out[k] = cv.Value
+							}
+						}
+					}
+				}
+				continue
+			}
+			// … or built in a temporary that is then copied into it
+			st, ok := i2.(*ssa.Store)
+			if !ok || st.Addr != ssa.Value(g) {
+				continue
+			}
+			ld, ok := st.Val.(*ssa.UnOp)
+			if !ok {
+				continue
+			}
+			al, ok := ld.X.(*ssa.Alloc)
+			if !ok {
+				continue
+			}
+			for _, r := range *al.Referrers() {
+				ia, ok := r.(*ssa.IndexAddr)
+				if !ok {
+					continue
+				}
+				k, isC := constInt(ia.Index)
+				if !isC {
+					continue
+				}
+				for _, rr := range *ia.Referrers() {
+					if s2, ok := rr.(*ssa.Store); ok && s2.Addr == ssa.Value(ia) {
+						if cv, ok := s2.Val.(*ssa.Const); ok && cv.Value != nil {
+							out[k] = cv.Value
+						}
+					}
+				}
+			}
+		}
+	}
+	return out
+}
+
+// derivedInverse: the entries of a map built as `for e := lo; e < hi; e++ { m[strings.ToLower(table[e])] = e }`
+// from a constant package-level table — the inverse of that table up to lower-casing, by construction.
+func derivedInverse(mm *ssa.MakeMap) [][2]constant.Value {
+	var out [][2]constant.Value
+	for _, r := range *mm.Referrers() {
+		mu, ok := r.(*ssa.MapUpdate)
+		if !ok || mu.Map != ssa.Value(mm) {
+			continue
+		}
+		lc, ok := mu.Key.(*ssa.Call)
+		if !ok {
+			return nil
+		}
+		if g := lc.Common().StaticCallee(); g == nil || g.String() != "strings.ToLower" {
+			return nil
+		}
+		ld, ok := lc.Call.Args[0].(*ssa.UnOp)
+		if !ok {
+			return nil
+		}
+		ia, ok := ld.X.(*ssa.IndexAddr)
+		if !ok {
+			return nil
+		}
+		g, ok := ia.X.(*ssa.Global)
+		if !ok {
+			return nil
+		}
+		phi, ok := ia.Index.(*ssa.Phi)
+		if !ok || mu.Value != ssa.Value(phi) {
+			return nil
+		}
+		// loop range: constant start, +1 step, `phi < hi` guarding the body
+		var lo, hi int64 = -1, -1
+		for _, e := range phi.Edges {
+			if k, isC := constInt(e); isC {
+				lo = k
+				continue
+			}
+			bo, ok := e.(*ssa.BinOp)
+			if !ok || bo.Op != token.ADD || bo.X != ssa.Value(phi) {
+				return nil
+			}
+			if one, isC := constInt(bo.Y); !isC || one != 1 {
+				return nil
+			}
+		}
+		for _, cd := range controls(mu.Block()) {
+			cd = normCond(cd)
+			if bo, ok := cd.V.(*ssa.BinOp); ok && bo.Op == token.LSS && bo.X == ssa.Value(phi) && cd.Pol {
+				if k, isC := constInt(bo.Y); isC {
+					hi = k
+				}
+			}
+		}
+		if lo < 0 || hi < 0 {
+			return nil
+		}
+		tab := globalArrayLiteral(g)
+		for i := lo; i < hi; i++ {
+			name := ""
+			if v, ok := tab[i]; ok && v.Kind() == constant.String {
+				name = constant.StringVal(v)
+			}
+			out = append(out, [2]constant.Value{constant.MakeString(strings.ToLower(name)), constant.MakeInt64(i)})
+		}
 	}
 	return out
 }
